@@ -26,6 +26,11 @@ type checkDef struct {
 
 var checks = map[string]checkDef{}
 
+var minNontrivial = map[string]int{
+	"C01": 3000, "C02": 3000, "C03": 3000, "C04": 3000, "C05": 9000, "C06": 900, "C07": 130, "C08": 110, "C09": 100, "C10": 50,
+	"C11": 95, "C12": 75, "C13": 16, "C14": 70, "C15": 1300, "C16": 30, "C17": 650, "C18": 250, "C19": 450, "C20": 14,
+}
+
 func main() {
 	if len(os.Args) < 3 {
 		fmt.Fprintln(os.Stderr, "usage: vcheck <id> <quick|thorough>")
@@ -38,6 +43,11 @@ func main() {
 		os.Exit(2)
 	}
 	c := h.NewCtx(id, tier, d.level)
+	// a run that observed far less than the workload is built to produce (a quarter of what the quick tier sees on
+	// the unchanged tree) decides nothing: it ends as BROKEN-CHECK (exit 2), never as "held"
+	if m, ok := minNontrivial[id]; ok {
+		c.MinNontriv = m
+	}
 	if c.Work == "" || c.Bin == "" {
 		fmt.Fprintln(os.Stderr, "run through ./check")
 		os.Exit(2)
